@@ -32,7 +32,11 @@ def _sig(c, v):
 
 
 def run(tier, seed, jobs, tag=TAG, other=OTHER, cfgs=None):
-    cov, viol = run_models(cfgs or configs(tier), jobs, _sig)
+    cfgs = cfgs or configs(tier)
+    if tag != TAG:
+        for c in cfgs:
+            c["params"]["focus"] = tag
+    cov, viol = run_models(cfgs, jobs, _sig)
     mine = [v for v in viol if other not in v["what"][0]]
     cov["violations_of_other_stream_property_seen"] = len(viol) - len(mine)
     cov["rule"] = (
